@@ -6,6 +6,7 @@ import (
 	"sync/atomic"
 
 	"github.com/tencent/goom/arg"
+	"github.com/tencent/goom/internal/simhook"
 )
 
 // BaseMatcher 参数匹配基类
@@ -46,6 +47,7 @@ func (c *BaseMatcher) Result() []reflect.Value {
 	if length := len(c.results); curNum >= int32(length) {
 		return c.results[length-1]
 	}
+	simhook.Yield(simhook.SiteMatcherLoaded, 0)
 
 	atomic.AddInt32(&c.curNum, 1)
 	return c.results[curNum]
